@@ -759,6 +759,96 @@ def contest_tally_post(S, I, variant):
     S.holds("IRV contest is not tabulated", irv.attrs["tally"] is None)
 
 
+class CounterLoopSummary:
+    """`for rec in L: body` over a symbolic-length record list, where the body only adds to integer counters held in dicts
+    (`d[key] += ...`).  counters: list of (dict object, key, spec(j)) with spec(j) the counter's value after the first j records.
+    The REAL body is run on an arbitrary record j with every counter set to spec(j); obligation: afterwards every counter equals
+    spec(j+1) and no other key was created with a non-zero value.  After the loop every counter is spec(n)."""
+
+    def __init__(self, S, counters):
+        self.S, self.counters = S, counters
+        self.ran = False
+
+    def run_for(self, I, st, env, in_class):
+        import ast
+        from pyvc.interp import Env
+        S, c = self.S, ctx()
+        lst = I.eval(st.iter, env)
+        if not isinstance(lst, SymObjList) or not isinstance(st.target, ast.Name):
+            raise NotApplicable("loop is not `for record in <symbolic-length list>`")
+        n = lst.length
+        for d, key, spec in self.counters:
+            S.holds(f"counter [{key}] starts at its initial value", icmp("==", d.get(key, 0), spec(0)))
+        j0 = z3.Int(c.fresh("rec"))
+        with c.scope():
+            c.assume(z3.And(j0 >= 0, j0 < zi(n)))
+            saved = [(d, dict(d)) for d in {id(d): d for d, _, _ in self.counters}.values()]
+            for d, key, spec in self.counters:
+                d[key] = spec(j0)
+            env2 = Env({st.target.id: lst.at(j0)}, env, env.module)
+            env2.fn_qual = getattr(env, "fn_qual", None)
+            I.exec_block(st.body, env2, in_class)
+            known = {(id(d), key) for d, key, _ in self.counters}
+            for d, key, spec in self.counters:
+                S.holds(f"counter [{key}] after record j = its value over the first j+1 records", icmp("==", d.get(key, 0), spec(j0 + 1)))
+            for d, before in saved:
+                extra = [k for k in d if (id(d), k) not in known]
+                S.holds("no other counter is touched", all(I.equal(d[k], before.get(k, 0)) is True for k in extra))
+            for d, before in saved:
+                d.clear()
+                d.update(before)
+        for d, key, spec in self.counters:
+            d[key] = spec(n)
+        self.ran = True
+
+
+@script(["C02"], "Contest.tally/post (unbounded number of cards, 3 candidates)", variants=(("enforce",), ("noenforce",)), optional=True)
+def contest_tally_unbounded(S, I, variant):
+    enforce = variant[0] == "enforce"
+    c = ctx()
+    cands = ["A", "B", "C"]
+    N = S.integer("n_cards", lo=0)
+    k = S.choose("n_winners", [1, 2])
+    con = mk_contest(I, id="con", cards=10, candidates=cands, winner=["A"], n_winners=k, choice_function="PLURALITY")
+    irv = mk_contest(I, id="irv", cards=10, candidates=cands, winner=["A"], choice_function="IRV")
+    cards = SymObjList(iterm(N), lambda i: sym_cvr(I, f"card@{z3.simplify(zi(i))}", {"con": cands}))
+
+    def counted(cand, i):
+        cv = cards.at(i)
+        marks = 0
+        for c2 in cands:
+            marks = mkint(iadd(marks, iite(card_vote(cv, "con", c2), 1, 0)))
+        return band(card_vote(cv, "con", cand), True if not enforce else icmp("<=", marks, k))
+
+    spec = {cand: SymArr(iterm(N), (lambda cand: (lambda i: mkint(iite(counted(cand, i), 1, 0))))(cand), "int").fold("+") for cand in cands}
+    import ast as _ast
+    holder = {}
+
+    class Late:
+        """the counters live in the tally dict the function creates: bound when the loop over the cards starts"""
+        def run_for(self_, I_, st, env, in_class):
+            tally = con.attrs.get("tally")
+            if not isinstance(tally, dict):
+                raise NotApplicable("the tally is not a dict of counters")
+            summ = CounterLoopSummary(S, [(tally, cand, (lambda cand: (lambda j: spec[cand].at(j)))(cand)) for cand in cands])
+            holder["summ"] = summ
+            return summ.run_for(I_, st, env, in_class)
+
+    I.loop_matchers["Contest.tally"] = [
+        (lambda st: isinstance(st, _ast.For) and isinstance(st.iter, _ast.Name) and st.iter.id == "cvr_list", Late())]
+    fn = I.get(MOD, "Contest.tally")
+    _, exc = guard(S, I, lambda: I.call(fn, [], {"con_dict": {"con": con, "irv": irv}, "cvr_list": cards, "enforce_rules": enforce}))
+    if exc:
+        return
+    if "summ" not in holder or not holder["summ"].ran:
+        raise NotApplicable("the loop over the cards was not recognised")
+    tally = con.attrs["tally"]
+    for cand in cands:
+        S.holds(f"tally[{cand}] = number of cards with a mark for {cand} that pass the rule filter",
+                icmp("==", I.getitem(tally, cand), spec[cand].at(iterm(N))))
+    S.holds("IRV contest is not tabulated", irv.attrs["tally"] is None)
+
+
 # ------------------------------------------------------------------ C03e: pooled CVRs list every contest of their pool (bounded)
 
 @script(["C03"], "CVR.pool_contests+add_pool_contests/post (bounded: n cards, 2 pools, 2 contests)", variants=(("n1",), ("n2",), ("n3",)))
